@@ -99,6 +99,8 @@ type ClientSc struct {
 	// NestMw: the client has a middleware that, for the first few calls, issues a request of its own on the same
 	// client from another goroutine, with the context the chain handed it, while the original call proceeds
 	NestMw bool `json:"nest_mw,omitempty"`
+	// TimeoutMwMs: the client is configured with the library's TimeoutMiddleware (this many milliseconds)
+	TimeoutMwMs int `json:"timeout_mw_ms,omitempty"`
 }
 
 // callRec is the recorded history of one call.
@@ -517,24 +519,28 @@ func (w *clientWorld) doClone(caller, idx int) {
 	if err != nil || c2 == nil {
 		return
 	}
-	tok := fmt.Sprintf("tok-k%d-%d-0", caller, idx)
-	rec := &callRec{caller: caller, idx: idx, kind: "clone-request", tokens: []string{tok}}
-	w.tokenOwner[tok] = rec
-	w.calls = append(w.calls, rec)
-	w.seq++
-	rec.startSeq = w.seq
-	res, err := c2.Request(context.Background(), &payloads.ActivateRequestPayload{UniqueIdentifier: tok})
-	rec.err = err
-	if err == nil {
-		if p, ok := res.(*payloads.ActivateResponsePayload); ok {
-			rec.got = append(rec.got, p.UniqueIdentifier)
-		} else {
-			rec.got = append(rec.got, fmt.Sprintf("<%T>", res))
+	// the clone is a client of its own: whatever state its parent is in (closed, say), it makes its calls, survives the
+	// faults of its own connections, and is closed
+	for k := 0; k < 3; k++ {
+		tok := fmt.Sprintf("tok-k%d-%d-%d", caller, idx, k)
+		rec := &callRec{caller: caller, idx: idx, kind: "clone-request", tokens: []string{tok}}
+		w.tokenOwner[tok] = rec
+		w.calls = append(w.calls, rec)
+		w.seq++
+		rec.startSeq = w.seq
+		res, err := c2.Request(context.Background(), &payloads.ActivateRequestPayload{UniqueIdentifier: tok})
+		rec.err = err
+		if err == nil {
+			if p, ok := res.(*payloads.ActivateResponsePayload); ok {
+				rec.got = append(rec.got, p.UniqueIdentifier)
+			} else {
+				rec.got = append(rec.got, fmt.Sprintf("<%T>", res))
+			}
 		}
+		rec.returned = true
+		w.seq++
+		rec.endSeq = w.seq
 	}
-	rec.returned = true
-	w.seq++
-	rec.endSeq = w.seq
 	_ = c2.Close()
 }
 
@@ -572,6 +578,9 @@ func (w *clientWorld) start(opts ...kmipclient.Option) {
 		}
 		if sc.Enforce {
 			o = append(o, kmipclient.EnforceVersion(kmip.V1_4))
+		}
+		if sc.TimeoutMwMs > 0 {
+			o = append(o, kmipclient.WithMiddlewares(kmipclient.TimeoutMiddleware(time.Duration(sc.TimeoutMwMs)*time.Millisecond)))
 		}
 		if sc.NestMw {
 			o = append(o, kmipclient.WithMiddlewares(func(next kmipclient.Next, ctx context.Context, msg *kmip.RequestMessage) (*kmip.ResponseMessage, error) {
